@@ -273,6 +273,54 @@ P["C11"] = {"property": "C11", "level": "proof", "units": [
       timeout=600),
 ]}
 
+P["C11"]["units"] += [
+    U("C11.jwt_base64uri_decode", "jwt_base64uri_decode (libjwt/jwt.c)", JWT_C, "contracts/jwt_c.h",
+      "size_t n; __CPROVER_assume(n <= 0x5fffffe0); char *s = nondet_bool() ? NULL : VS(n); int *rl; int l; rl = nondet_bool() ? NULL : &l; jwt_base64uri_decode(s, rl);",
+      "jwt_base64uri_decode/contract_C11_jwt_base64uri_decode", replace=["base64_decode/contract_C11_base64_decode"],
+      stubs=JWT_STUBS, defines=["VERIF_TU_JWT", "VERIF_STRLEN_RECORD"], pre=[VS], flags=["--conversion-check"],
+      loops={"jwt_base64uri_decode": [
+        {"loop_id": 0, "vars": ["i", "len", "new", "src"], "assigns": "i, __CPROVER_object_whole(new)",
+         "invariants": ["0 <= i && i <= len"], "decreases": "len - i"},
+        {"loop_id": 1, "vars": ["i", "z", "len", "new"], "assigns": "i, z, __CPROVER_object_whole(new)",
+         "invariants": ["z >= 0 && z <= 2 && i >= len && i <= len + 2", "i + z == len + ((len % 4) == 0 ? 0 : ((len % 4) == 2 ? 2 : 1))"], "decreases": "z"}]},
+      expect=["contract_C11_jwt_base64uri_decode\\.postcondition\\.2", "jwt_base64uri_decode\\.loop_invariant_step", "contract_C11_base64_decode\\.precondition"],
+      timeout=600),
+    U("C11.jwt_base64uri_encode", "jwt_base64uri_encode (libjwt/jwt.c)", JWT_C, "contracts/jwt_c.h",
+      "int n; __CPROVER_assume(n >= 0 && n <= B64_MAXLEN); char *p = malloc(n); __CPROVER_assume(n == 0 || p != NULL); char *d; jwt_base64uri_encode(&d, p, n);",
+      "jwt_base64uri_encode/contract_C11_jwt_base64uri_encode", replace=["base64_encode/contract_C11shape_base64_encode"],
+      stubs=JWT_STUBS, defines=["VERIF_TU_JWT"], flags=["--conversion-check"],
+      loops={"jwt_base64uri_encode": [
+        {"loop_id": 0, "vars": ["i", "len", "dst"], "assigns": "i, __CPROVER_object_whole(dst)",
+         "invariants": ["0 <= i && i <= len", "(g_str_k < (unsigned long)i) ==> (dst[g_str_k] != '=' && dst[g_str_k] != '+' && dst[g_str_k] != '/')"],
+         "decreases": "len - i", "globals": {"g_str_k": "g_str_k"}}]},
+      expect=["contract_C11_jwt_base64uri_encode\\.postcondition\\.3", "jwt_base64uri_encode\\.loop_invariant_step", "contract_C11shape_base64_encode\\.precondition"],
+      timeout=600),
+]
+
+def finite(name, function, tu, harness, entry, unwind, expect, extra_sources=(), stubs=(), defines=(), timeout=600, **kw):
+    u = {"name": name, "function": function, "kind": "finite", "tu": tu if isinstance(tu, list) else [tu], "defines": list(defines),
+         "contracts": ["contracts/base64_c.h"], "stubs": list(stubs), "entry": entry, "harness": harness, "no_contracts": True,
+         "enforce": [], "replace": [], "flags": ["--conversion-check"], "unwind": unwind, "expect": list(expect), "timeout": timeout,
+         "extra_sources": list(extra_sources)}
+    u.update(kw)
+    return u
+P["C11"]["units"] += [
+    finite("C11.finite.encode_blocks", "base64_encode (libjwt/base64.c): every input of length 0..3", B64_C,
+           "harness/C11_finite.c", "h_C11_encode_blocks", 5, ["h_C11_encode_blocks\\.assertion\\.3"]),
+    finite("C11.finite.decode_groups", "base64_decode (libjwt/base64.c): every 4-character group", B64_C,
+           "harness/C11_finite.c", "h_C11_decode_groups", 6, ["h_C11_decode_groups\\.assertion\\.1"]),
+    finite("C11.finite.roundtrip3", "jwt_base64uri_encode/jwt_base64uri_decode (libjwt/jwt.c) + base64.c: every input of length 1..3",
+           JWT_C, "harness/C11_roundtrip.c", "h_C11_roundtrip", 12, ["h_C11_roundtrip\\.assertion\\.5"],
+           extra_sources=["libjwt/base64.c"], stubs=["stubs/alloc.c", "stubs/ghost.c"], defines=["VERIF_ALLOC_NEVER_FAILS", "C11_MAXN=3"]),
+    finite("C11.finite.roundtrip6", "jwt_base64uri_encode/jwt_base64uri_decode (libjwt/jwt.c) + base64.c: every input of length 1..6",
+           JWT_C, "harness/C11_roundtrip.c", "h_C11_roundtrip", 12, ["h_C11_roundtrip\\.assertion\\.5"],
+           extra_sources=["libjwt/base64.c"], stubs=["stubs/alloc.c", "stubs/ghost.c"], defines=["VERIF_ALLOC_NEVER_FAILS", "C11_MAXN=6"],
+           tier="thorough", timeout=1200),
+    finite("C11.finite.reject", "jwt_base64uri_decode (libjwt/jwt.c) + base64.c: every text of length 1..8",
+           JWT_C, "harness/C11_roundtrip.c", "h_C11_reject", 12, ["h_C11_reject\\.assertion\\.1"],
+           extra_sources=["libjwt/base64.c"], stubs=["stubs/alloc.c", "stubs/ghost.c"], defines=["VERIF_ALLOC_NEVER_FAILS"]),
+]
+
 # ============================ parsing units =================================
 VERIFY_JSON_STUBS = LIBC + ["stubs/time.c", "stubs/jansson.c", "stubs/alloc.c"]
 def parse_units(prop, clauses_name):
